@@ -1,10 +1,65 @@
 import KawinV.Proto
-/-! driver verbs for C17 (stub: no verbs yet) -/
+import KawinV.Model.Homog
+/-! driver verbs for the homogenization model (Float instance) -/
 namespace KawinV.Drv.C17
-open KawinV.Proto
+open KawinV.Proto KawinV.Homog
+
+/-- np.finfo(np.float64).tiny / .max -/
+def tiny : Float := Float.ofBits 0x0010000000000000
+def big : Float := Float.ofBits 0x7FEFFFFFFFFFFFFF
+
+def pw (x n : Float) : Float := Float.pow x n
+
+def ruleOf : Nat → Option Rule
+  | 0 => some .wienerUpper | 1 => some .wienerLower | 2 => some .hashinUpper
+  | 3 => some .hashinLower | 4 => some .labyrinth | _ => none
+
+/-- homog.rules  fr(p) mob(p) n  → wienerUpper wienerLower hashinUpper hashinLower labyrinth
+    (one element column through the five public averaging functions) -/
+def rules : P String := do
+  let fr ← flts; let m ← flts; let n ← flt
+  let ps := List.zip fr m
+  pure (flist ([Rule.wienerUpper, .wienerLower, .hashinUpper, .hashinLower, .labyrinth].map
+    (fun r => applyRule pw tiny big n r ps)))
+
+/-- homog.clip n → np.clip(n, 1, 2) -/
+def clip : P String := do
+  let n ← flt
+  pure (fout (clipFactor n))
+
+def post : P (Post Nat) := do
+  let k ← nat
+  match k with
+  | 0 => pure .none
+  | 1 => do let a ← nat; pure (.predefined a)
+  | 2 => pure .majority
+  | 3 => do let xs ← lst nat; pure (.exclude xs)
+  | _ => failure
+
+def cfg : P (Cfg Nat Float) := do
+  let r ← nat; let n ← flt; let p ← post
+  match ruleOf r with
+  | some rule => pure { rule := rule, n := n, post := p }
+  | none => failure
+
+/-- homog.history  db(nats) stable(nats) rows(list of flts) fr(flts) cfgs(list of: rule n post)
+    → per configuration `R <list>` or `E <error>`, then the stored record afterwards `M rows… F fr` -/
+def history : P String := do
+  let db ← lst nat; let stable ← lst nat; let rows ← lst flts; let fr ← flts
+  let cfgs ← lst cfg
+  let pt : Point Nat Float := { stable := stable, mob := rows, fr := fr }
+  let (outs, st) := runHistory (evalCached pw tiny big db) cfgs pt
+  let os := outs.map (fun o => match o with
+    | .ok xs => "R " ++ flist xs
+    | .error e => "E " ++ e)
+  let ms := st.mob.map flist
+  pure (" ".intercalate (os ++ ["M", toString ms.length] ++ ms ++ ["F", flist st.fr]))
 
 def handle (verb : String) : Option (P String) :=
   match verb with
+  | "homog.rules" => some rules
+  | "homog.clip" => some clip
+  | "homog.history" => some history
   | _ => none
 
 end KawinV.Drv.C17
